@@ -19,7 +19,9 @@ PROPS = {
         "modules": ["C09", "C09Seal", "C09Reach", "C09Supply"],
         "streams": [{"name": "hostile", "quick": 210, "thorough": 9600}, {"name": "apply", "quick": 75, "thorough": 3200},
                     {"name": "seal", "quick": 180, "thorough": 3200}, {"name": "chain", "quick": 45, "thorough": 2000},
-                    {"name": "exec", "quick": 600, "thorough": 60000}, {"name": "feemult", "quick": 100, "thorough": 4500}],
+                    {"name": "exec", "quick": 600, "thorough": 60000}, {"name": "feemult", "quick": 100, "thorough": 4500},
+                    # decoding stake documents and proof-of-work payloads never panics, whatever the bytes
+                    {"name": "stdcode", "quick": 300, "thorough": 6000}],
         "projection": "panics",
         "oracles": ["panics"],
         "assumptions": ["C09_apply_total / C09_seal_total assume the reachable-state invariants bundled in ApplyPre / SealTotalPre (count invariant, fresh coin ids, coin heights, supply bounds, sane pools, positive recorded speeds, history below the height) and exclude by explicit hypothesis only the 2^74-work reward overflow (the former exclusions F9 — melpow panics — and F19 — weight sum overflow — were repaired in /repo and are no longer assumed)",
@@ -112,7 +114,7 @@ PROPS = {
         "assumptions": ["faucet marker ids are disjoint from transaction hashes (domain-separated keyed hash) — hypothesis MarkersApart of C02_exact"],
     },
     "C03": {
-        "modules": ["C03", "C03Seq"],
+        "modules": ["C03", "C03Seq", "C03Sched"],
         "streams": [{"name": "apply", "quick": 135, "thorough": 4800, "rayon": [1, 4, 2, 16]}, {"name": "chain", "quick": 60, "thorough": 2400, "rayon": [1, 3]},
                     {"name": "mint", "quick": 180, "thorough": 4800}],
         "projection": "batch_all",
@@ -135,13 +137,15 @@ PROPS = {
         # the property fixes which batches / blocks are accepted: an input on which the implementation accepts what the
         # proved model rejects (or the other way round) is an input on which the property fails
         "verdict_is_spec": True,
-        "modules": ["C05", "C05Hist", "PinC05"],
+        "modules": ["C05", "C05Hist", "PinC05", "Codec"],
         "streams": [{"name": "apply", "quick": 180, "thorough": 7200}, {"name": "seal", "quick": 90, "thorough": 3200}, {"name": "weight", "quick": 200, "thorough": 9000},
                     # hostile mutations that bear on fees: covenants listed several times whose weights approach or pass a u128
-                    {"name": "hostile", "quick": 100, "thorough": 3200}],
+                    {"name": "hostile", "quick": 100, "thorough": 3200},
+                    # the size term of the weight: stdcode::serialize(tx).len() against the model's txLen
+                    {"name": "stdcode", "quick": 300, "thorough": 6000}],
         "projection": "fees",
         "oracles": ["fees"],
-        "assumptions": ["the serialised length of a transaction is an input of the model (supplied by the implementation)"],
+        "assumptions": ["the serialised length of a transaction is computed by the model from the transaction's content (Stdcode.txLen, mirrors the serde layout of melstructs::Transaction under stdcode/bincode); the length the implementation reports is compared with it on every transaction of every batch and block (a difference is reported as `stdcode-mismatch`) and on the transactions of the stdcode stream"],
     },
     "C06": {
         # the property fixes which batches / blocks are accepted: an input on which the implementation accepts what the
@@ -154,7 +158,7 @@ PROPS = {
         "assumptions": ["a block's header equality is decided on the real headers; the model computes the scalar header fields itself and is given the Merkle roots of the states involved"],
     },
     "C07": {
-        "modules": ["C07", "C07Chain", "C07Hist", "PinC07"],
+        "modules": ["C07", "C07Chain", "C07Hist", "C07Dense", "PinC07"],
         "streams": [{"name": "chain", "quick": 90, "thorough": 4000}, {"name": "activation", "quick": 90, "thorough": 3200}, {"name": "merkle", "quick": 40, "thorough": 2400}],
         "projection": "chain",
         "oracles": [],
@@ -172,20 +176,24 @@ PROPS = {
         # the property fixes which batches / blocks are accepted: an input on which the implementation accepts what the
         # proved model rejects (or the other way round) is an input on which the property fails
         "verdict_is_spec": True,
-        "modules": ["C13", "C13Life", "C14Hist", "PinC13"],
+        "modules": ["C13", "C13Life", "C14Hist", "PinC13", "Codec"],
         "streams": [{"name": "stake", "quick": 180, "thorough": 6400}, {"name": "apply", "quick": 90, "thorough": 3200}, {"name": "chain", "quick": 60, "thorough": 2400},
-                    {"name": "confirm", "quick": 60, "thorough": 3200}],
+                    {"name": "confirm", "quick": 60, "thorough": 3200},
+                    # the decoder of the declared stake: stdcode::deserialize::<StakeDoc> against the model's decodeStakeDoc
+                    {"name": "stdcode", "quick": 300, "thorough": 6000}],
         "projection": "stakes",
         # voting power (start <= epoch < end, summed per key) is observable through confirmation decisions
         "oracles": ["stakes", "confirm"],
-        "assumptions": ["the decoded StakeDoc of a transaction's data is an input of the model (decoded by the real stdcode)"],
+        "assumptions": ["the StakeDoc a transaction declares is decoded by the model itself (Stdcode.decodeStakeDoc, mirrors stdcode/bincode: varint integers, non-minimal forms accepted, trailing bytes rejected); what the real stdcode decodes is compared with it on every transaction of every batch and block and on the byte strings of the stdcode stream"],
     },
     "C18": {
         # the property fixes which batches / blocks are accepted: an input on which the implementation accepts what the
         # proved model rejects (or the other way round) is an input on which the property fails
         "verdict_is_spec": True,
-        "modules": ["C18", "C18Hist", "PinC18"],
-        "streams": [{"name": "mint", "quick": 360, "thorough": 12000}, {"name": "apply", "quick": 90, "thorough": 3200}],
+        "modules": ["C18", "C18Hist", "PinC18", "Codec"],
+        "streams": [{"name": "mint", "quick": 360, "thorough": 12000}, {"name": "apply", "quick": 90, "thorough": 3200},
+                    # the decoder of the stated difficulty: stdcode::deserialize::<(u32, Vec<u8>)> against the model's decodePow
+                    {"name": "stdcode", "quick": 300, "thorough": 6000}],
         "projection": "speed",
         "oracles": ["mint"],
         "assumptions": ["MelPoW verification is a parameter: the verdict for the puzzle (header at the coin's height, coin id) is computed by the harness from the specification with the real melpow and shipped to the model"],
